@@ -1627,4 +1627,93 @@ def table_writers(ctx, cls_info, table):
     return out
 
 
+def facts_imply(prog, func, facts, atoms, goal):
+    """Do the guard facts imply `goal`?  `atoms` names the propositions of interest: {"a": "m.leader == -1", "b": "m.leader in
+    brokers"}; `goal` is a predicate over an assignment {"a": bool, "b": bool}.  Every fact is read with the locals it
+    mentions replaced by their definitions and constants folded; a fact that is a boolean combination (not / and / or,
+    `!=` as the negation of `==`, `not in` as the negation of `in`, `is not` of `is`) of the named atoms constrains the
+    assignments, any other fact is ignored.  True iff the goal holds under every assignment the facts allow (and they
+    exclude at least one: an unconstrained goal is not "implied")."""
+    import itertools
+    from ..cfg import resolve_at
+
+    names = sorted(atoms)
+    canon = {}
+    for k, t in atoms.items():
+        canon[norm(fold(prog, func, ast.parse(t, mode="eval").body), 400)] = k
+
+    def flip(e):
+        if isinstance(e, ast.Compare) and len(e.ops) == 1:
+            op = e.ops[0]
+            alt = {ast.NotEq: ast.Eq, ast.NotIn: ast.In, ast.IsNot: ast.Is}.get(type(op))
+            if alt is not None:
+                return ast.Compare(left=e.left, ops=[alt()], comparators=e.comparators)
+        return None
+
+    def make_leaf(env):
+        def leaf(t):
+            tx = norm(t, 400)
+            if tx in canon:
+                return env[canon[tx]]
+            f_ = flip(t)
+            if f_ is not None and norm(f_, 400) in canon:
+                return not env[canon[norm(f_, 400)]]
+            return None
+        return leaf
+
+    usable = []
+    for t, pol in facts:
+        if t.startswith("(") and " := " in t:
+            continue
+        try:
+            e = fold(prog, func, resolve_at(facts, ast.parse(t, mode="eval").body))
+        except (SyntaxError, ValueError):
+            continue
+        usable.append((e, pol))
+    allowed = []
+    for vals in itertools.product([False, True], repeat=len(names)):
+        env = dict(zip(names, vals))
+        lf = make_leaf(env)
+        ok = True
+        for e, pol in usable:
+            v = tri_eval(e, lf)
+            if v is not None and v != pol:
+                ok = False
+                break
+        if ok:
+            allowed.append(env)
+    return len(allowed) < 2 ** len(names) and all(goal(env) for env in allowed)
+
+
+def provenance_texts(ctx, func, node, expr):
+    """Texts of what the value of `expr` at `node` is computed from: locals followed back through their reaching
+    definitions (never through an attribute that merely holds the same value at that point), single-definition
+    temporaries named by what they hold; an unmodified parameter is `<param:i>`; `<untraceable>` when a definition
+    cannot be followed."""
+    cfg = ctx.cfg(func)
+    og = value_origins(cfg, node.id, expr, params=func.params)
+    out = []
+    for n_, e in (og or [(None, None)]):
+        if e is None:
+            out.append("<untraceable>")
+        elif n_ == cfg.entry.id and isinstance(e, ast.Name) and e.id in func.params:
+            out.append("<param:%d>" % func.params.index(e.id))
+        else:
+            out.append(norm(expand(ctx.prog, func, e, calls=True)))
+    return out
+
+
+def root_name(e):
+    """the variable an attribute / subscript / call chain starts from (`a` of `a[i].b(c)[j]`), or None"""
+    while True:
+        if isinstance(e, (ast.Attribute, ast.Subscript, ast.Starred)):
+            e = e.value
+        elif isinstance(e, ast.Call):
+            e = e.func
+        elif isinstance(e, ast.Name):
+            return e.id
+        else:
+            return None
+
+
 __all__ = [n for n in dir() if not n.startswith("_")]
